@@ -165,6 +165,54 @@ fn cmd_replay(args: &Args) -> i32 {
                 0
             }
         }
+        ("W1", "L1-group") => {
+            let Some(prop) = Prop::from_id(&f.property) else { return 2 };
+            // rebuild the batch configuration and re-execute the group from the seed
+            let mut a = Args { pos: vec!["w1".into(), f.property.clone()], opt: BTreeMap::new() };
+            let mut gid: Option<u64> = None;
+            for l in &f.body {
+                if let Some(c) = l.strip_prefix("cfg ") {
+                    for kv in c.split_whitespace() {
+                        if let Some((k, v)) = kv.split_once('=') {
+                            let k = match k {
+                                "runs_per_fork" => "runs-per-fork",
+                                "sys_variants" => "sys-variants",
+                                k => k,
+                            };
+                            a.opt.insert(k.to_string(), v.to_string());
+                        }
+                    }
+                } else if let Some(g) = l.strip_prefix("group ") {
+                    gid = g.trim().parse().ok();
+                }
+            }
+            a.opt.insert("seed".into(), f.verif_seed.to_string());
+            let Some(gid) = gid else {
+                println!("HARNESS-ERROR bad L1-group replay body");
+                return 2;
+            };
+            let cfg = w1_cfg(&a, prop);
+            match runner::rerun_group(&cfg, gid) {
+                Ok(found) => {
+                    let hit = found.iter().find(|x| x.run == f.run && x.violation.signature() == f.signature).or_else(|| found.iter().find(|x| x.run == f.run)).or(found.first());
+                    match hit {
+                        Some(x) => {
+                            println!("REPRODUCED property={} signature={} run={} detail={}", f.property, x.violation.signature(), x.run, x.violation.detail);
+                            println!("{}", if x.violation.signature() == f.signature && x.run == f.run { "SAME-SIGNATURE".to_string() } else { format!("DIFFERENT-SIGNATURE recorded={} run {}", f.signature, f.run) });
+                            1
+                        }
+                        None => {
+                            println!("NOT-REPRODUCED property={} (group {} re-executed clean)", f.property, gid);
+                            0
+                        }
+                    }
+                }
+                Err(e) => {
+                    println!("HARNESS-ERROR {}", e);
+                    2
+                }
+            }
+        }
         ("W1", "L1") => {
             let Some(prop) = Prop::from_id(&f.property) else { return 2 };
             let ops = match runner::parse_ops(&f.body) {
@@ -357,8 +405,30 @@ fn cmd_w1(args: &Args) -> i32 {
             known_hits.push(sig.clone());
             continue;
         }
-        let min_ops = runner::minimize(prop, &f.ops, sig, &mut env, 30.0);
         let scratch = env.dir.join("final.out");
+        // does the run reproduce on its own? If not and runs share a process (runs_per_fork > 1), the
+        // violation needs what its predecessors in the same process left behind: replay the group
+        // (predecessors' ops, a `reset` between runs, then this run) as one history
+        let mut start_ops = f.ops.clone();
+        let mut grouped = false;
+        let alone = matches!(runner::run_ops_isolated(prop, &f.ops, &mut env, &scratch), Ok((Some(ref v), _)) if &v.signature() == sig);
+        if !alone && cfg.runs_per_fork > 1 {
+            let k = cfg.runs_per_fork;
+            let first = (f.run / k) * k;
+            let mut all: Vec<ops::TOp> = Vec::new();
+            for i in first..f.run {
+                if let Ok((o, _)) = runner::ops_of_run(&cfg, i, &mut env) {
+                    all.extend(o);
+                    all.push(ops::TOp { task: 0, op: ops::Op::Reset });
+                }
+            }
+            all.extend(f.ops.iter().cloned());
+            if matches!(runner::run_ops_isolated(prop, &all, &mut env, &scratch), Ok((Some(ref v), _)) if &v.signature() == sig) {
+                start_ops = all;
+                grouped = true;
+            }
+        }
+        let min_ops = runner::minimize(prop, &start_ops, sig, &mut env, if grouped { 60.0 } else { 30.0 });
         let (detail, nexec) = match runner::run_ops_isolated(prop, &min_ops, &mut env, &scratch) {
             Ok((Some(v), n)) => (v.detail, n),
             _ => (f.violation.detail.clone(), min_ops.len()),
@@ -373,7 +443,7 @@ fn cmd_w1(args: &Args) -> i32 {
             layer: "L1".into(),
             verif_seed: seed,
             run: f.run,
-            swarm: f.swarm.clone(),
+            swarm: if grouped { format!("{} [group replay: runs {}..={} of one process]", f.swarm, (f.run / cfg.runs_per_fork) * cfg.runs_per_fork, f.run) } else { f.swarm.clone() },
             signature: sig.clone(),
             detail,
             body: rr.ops.iter().map(|o| o.to_text()).collect(),
@@ -396,8 +466,49 @@ fn cmd_w1(args: &Args) -> i32 {
             reports.push(J::obj().set("signature", J::s(sig)).set("replay", J::s(&path.display().to_string())).set("ops", J::u(rf.body.len() as u64)).set("detail", J::s(&rf.detail)));
             exit = exit.max(1);
         } else {
-            println!("HARNESS-ERROR violation '{}' of run {} did not reproduce from its replay file in a fresh process (exit {}): {}", sig, f.run, code, outp.trim());
-            exit = 2;
+            // last resort: the violation may depend on where the allocator places things (an address used
+            // as an identity), which an explicit op list cannot pin down because its replay allocates
+            // differently. Re-execute the run's whole group the way the batch did, from the seed.
+            let gid = f.run / cfg.runs_per_fork.max(1);
+            let mut body = vec![
+                format!("cfg tier={} runs={} runs_per_fork={} sys_variants={}", cfg.tier, cfg.runs, cfg.runs_per_fork, cfg.sys_variants),
+                format!("group {}", gid),
+                format!("failing_run {}", f.run),
+            ];
+            body.extend(f.ops.iter().map(|o| format!("# {}", o.to_text())));
+            let rf2 = ReplayFile {
+                property: prop.id().to_string(),
+                world: "W1".into(),
+                layer: "L1-group".into(),
+                verif_seed: seed,
+                run: f.run,
+                swarm: format!("{} [re-execution of group {} from the seed; the op list below is for reading only]", f.swarm, gid),
+                signature: sig.clone(),
+                detail: f.violation.detail.clone(),
+                body,
+            };
+            let name2 = format!("{}-{}-{}-group.replay", prop.id(), seed, f.run);
+            let mut ok = false;
+            if let Ok(path2) = runner::write_replay(&cfg.replay_dir, &name2, &rf2) {
+                let (c2, o2) = replay_in_fresh_process(&path2);
+                if c2 == 1 && o2.contains("SAME-SIGNATURE") {
+                    let _ = std::fs::remove_file(&path);
+                    println!("VIOLATION property={} replay={}", prop.id(), path2.display());
+                    println!("  signature: {}", sig);
+                    println!("  detail: {}", rf2.detail);
+                    println!("  replay re-executes runs {}..{} of the batch from the seed (the failure depends on the allocator's placement and does not reproduce from an explicit op list)", gid * cfg.runs_per_fork, (gid + 1) * cfg.runs_per_fork - 1);
+                    violations_reported += 1;
+                    reports.push(J::obj().set("signature", J::s(sig)).set("replay", J::s(&path2.display().to_string())).set("ops", J::u(f.ops.len() as u64)).set("detail", J::s(&rf2.detail)).set("replay_kind", J::s("group re-execution from the seed")));
+                    exit = exit.max(1);
+                    ok = true;
+                } else {
+                    let _ = std::fs::remove_file(&path2);
+                }
+            }
+            if !ok {
+                println!("HARNESS-ERROR violation '{}' of run {} did not reproduce from its replay file in a fresh process (exit {}): {}", sig, f.run, code, outp.trim());
+                exit = 2;
+            }
         }
     }
     drop(env);
@@ -421,7 +532,7 @@ fn cmd_w1(args: &Args) -> i32 {
     let required: &[&str] = match prop {
         Prop::C02 => &["finish_after_partial", "finish_after_exhaustion", "step_after_exhaustion", "zero_frame_generator", "generator_moved_across_tasks", "generator_dropped_midstream", "mixed_buffer_sizes", "engine_dropped_while_generators_live", "process_with_1000_or_more_api_calls"],
         Prop::C03 => &["same_key_on_two_tasks", "same_key_on_two_engine_slots", "clone", "failed_call:err", "generator_waveform_registered", "engine_dropped_while_generators_live", "fresh_process_reference_checked", "process_with_1000_or_more_api_calls", "process_with_256_or_more_distinct_waveform_keys"],
-        Prop::C19 => &["setw:valid", "setw:wrong_length", "setw:wrong_length_good_sum", "setw:bad_sum", "setw:nan", "setw:inf", "rejected_update", "synth_vs_twin", "vsnew:empty", "vsnew:metadata", "vsnew:ok", "vsnew_variant:0", "vsnew_variant:1", "vsnew_variant:2", "vsnew_mutated_first_voice", "vsnew_mutated_third_or_later_voice", "reload_voice_set", "clone_from", "weights_on_stream_index_3_or_later"],
+        Prop::C19 => &["setw:valid", "setw:wrong_length", "setw:wrong_length_good_sum", "setw:bad_sum", "setw:nan", "setw:inf", "rejected_update", "synth_vs_twin", "vsnew:empty", "vsnew:metadata", "vsnew:ok", "vsnew_variant:0", "vsnew_variant:1", "vsnew_variant:2", "vsnew_lossy_comparison_trap", "vsnew_mutated_first_voice", "vsnew_mutated_third_or_later_voice", "reload_voice_set", "clone_from", "weights_on_stream_index_3_or_later"],
         Prop::C20 => &["clamp_applied:speed", "clamp_applied:alpha", "clamp_applied:beta", "clamp_applied:msd_threshold", "clamp_applied:gv_weight", "clamp_applied:sampling_frequency", "clamp_applied:fperiod", "clone", "clone_from", "per_stream_setter_on_stream_index_3_or_later"],
     };
     let mut dead = Vec::new();
